@@ -251,6 +251,27 @@ def table_m(facts, rep, rule_guard, rule_kind, self_ty=MEM, trait="FileSystem", 
                                 len(a) > 1 and a[1][0] == "agg" and a[1][2] == "FileNotFound" and \
                                 norm(a[0][2][1]) == norm(mm.key_arg(b)):
                             has = True
+            # ... or in a private helper of the same file that receives the path (`self.update_file(path, |file| ..)`): its lookup of
+            # that parameter
+            if not has:
+                for cb in mm.inter.code_bodies(b):
+                    tr = get_tracer(facts, cb)
+                    for s_ in mm.inter.sites(cb):
+                        hb_ = mm.inter.local_callee(s_)
+                        if hb_ is None or hb_.kind == "Closure" or hb_.vis == "pub" or hb_.file != b.file or \
+                                (hb_.impl and hb_.impl.get("trait")) or hb_.id == b.id:
+                            continue
+                        js = [j for j, a_ in enumerate(s_.args) if norm(tr.operand(a_)) == norm(mm.key_arg(b))]
+                        for hcb in mm.inter.code_bodies(hb_):
+                            htr = get_tracer(facts, hcb)
+                            for blk in hcb.calls():
+                                t = blk.term
+                                if short(t.callee() or "") in ("Option::ok_or", "Option::ok_or_else"):
+                                    a = [norm(htr.operand(x)) for x in t.args]
+                                    if a and a[0][0] == "call" and a[0][1] in ("HashMap::get", "HashMap::get_mut", "HashMap::remove") and \
+                                            len(a) > 1 and a[1][0] == "agg" and a[1][2] == "FileNotFound" and len(a[0][2]) > 1 and \
+                                            norm(a[0][2][1])[0] == "arg" and norm(a[0][2][1])[1] in js and norm(a[0][2][1])[3] == hb_.id:
+                                        has = True
             # ... or spelled out: `match map.get(path) { None => Err(FileNotFound), .. }`
             if not has:
                 cbm = mm.inter.code_body(b)
